@@ -168,6 +168,10 @@ class _Ident(collectors.Collector):
             self.records.append(rec)
 
 
+def zero_score(model):
+    return 0
+
+
 class WarmModel(core.Model):
     """Accepts the same parameters as VModel, is complete at once, records nothing (used for an EARLIER batch run with the same
     ParameterList object)."""
